@@ -5,7 +5,9 @@ package ice
 import (
 	"fmt"
 	"strings"
+	"sync"
 	"testing"
+	"time"
 
 	"pgregory.net/rapid"
 )
@@ -132,5 +134,96 @@ func TestVerif_C11_SelectedPairStream(t *testing.T) {
 				st.Fail(rt, sig, "agent %c: the handler saw %v, the selection went through %v\n%s", 'A'+side, got, expect[side], desc)
 			}
 		}
+	})
+}
+
+// TestVerif_C11_SelectedPairSlowHandlerAcrossRestart: the selected-pair handler is still busy with an earlier event
+// while 1..3 further selections are queued behind it; then Restart is called — from outside, or by the handler
+// itself when it resumes. Every selection that happened is still reported, once, in order: a slow handler (or one
+// that calls back into the agent) never makes an event disappear. Selections are made through the agent's own
+// setSelectedPair on its task loop, alternating between two pairs so that each one is a change.
+func TestVerif_C11_SelectedPairSlowHandlerAcrossRestart(t *testing.T) {
+	st := vfNewStats(t)
+	rapid.Check(t, func(rt *rapid.T) {
+		queued := rapid.IntRange(1, 3).Draw(rt, "queuedBehindTheBusyHandler")
+		restartFrom := rapid.SampledFrom([]string{"outside", "handler", "none"}).Draw(rt, "restartFrom")
+		s, err := newSoloSim(simAgentConfig{controlling: rapid.Bool().Draw(rt, "controlling"), maxBinding: 7, disconnected: time.Hour, keepalive: 0, explicitTimeout: true},
+			[]duoSockSpec{{Kind: simKindHost}, {Kind: simKindHost}}, []soloEpSpec{{Typ: CandidateTypeHost}})
+		if err != nil {
+			rt.Fatalf("harness: %v", err)
+		}
+		a := s.ag.a
+		if err := s.ag.start(s.peer.ufrag, s.peer.pwd); err != nil {
+			rt.Fatalf("harness: %v", err)
+		}
+		_ = s.ag.addRemoteSync(s.epCandidate(0, soloEpSpec{Typ: CandidateTypeHost}))
+		var pairs []*CandidatePair
+		_ = a.loop.Run(a.loop, nil2(func() { pairs = append(pairs, a.checklist...) }))
+		if len(pairs) < 2 {
+			rt.Fatalf("harness: %d pairs", len(pairs))
+		}
+		var (
+			mu      sync.Mutex
+			log     []string
+			parked  = make(chan struct{})
+			release = make(chan struct{})
+			first   sync.Once
+		)
+		_ = a.OnSelectedCandidatePairChange(func(l, r Candidate) {
+			mu.Lock()
+			log = append(log, l.Address()+"|"+r.Address())
+			mu.Unlock()
+			first.Do(func() {
+				close(parked)
+				<-release
+				if restartFrom == "handler" {
+					_ = a.Restart("", "")
+				}
+			})
+		})
+		var want []string
+		sel := func(k int) {
+			p := pairs[k%2]
+			want = append(want, p.Local.Address()+"|"+p.Remote.Address())
+			_ = a.loop.Run(a.loop, nil2(func() { a.setSelectedPair(p) }))
+		}
+		sel(0)
+		select {
+		case <-parked:
+		case <-time.After(10 * time.Second):
+			st.Inconclusive()
+			close(release)
+			rt.Fatalf("VERIF-INCONCLUSIVE: the selected-pair handler was not invoked within 10 s")
+		}
+		for k := 1; k <= queued; k++ {
+			sel(k)
+		}
+		if restartFrom == "outside" {
+			_ = a.Restart("", "")
+		}
+		close(release)
+		deadline := time.Now().Add(5 * time.Second)
+		for {
+			mu.Lock()
+			n := len(log)
+			mu.Unlock()
+			if n >= len(want) || time.Now().After(deadline) {
+				break
+			}
+			time.Sleep(200 * time.Microsecond)
+		}
+		time.Sleep(300 * time.Microsecond) // (a surplus event would follow at once)
+		mu.Lock()
+		got := append([]string{}, log...)
+		mu.Unlock()
+		desc := fmt.Sprintf("%d selections queued behind a busy handler, Restart from %s", queued, restartFrom)
+		if strings.Join(got, " ") != strings.Join(want, " ") {
+			st.Fail(rt, "C11/selected/event-lost-or-reordered-behind-busy-handler", "%s: the handler saw %v, the selections were %v", desc, got, want)
+		}
+		st.Record(vfHashStr(desc), restartFrom != "none", "restart-from:"+restartFrom)
+		if st.WantSample() {
+			st.Sample(func() string { return desc })
+		}
+		_ = a.Close()
 	})
 }
